@@ -74,10 +74,27 @@ func C18(cfg Cfg) int {
 			accts = append(accts, c18Acct{wallet: "D", name: "val", pub: v.SharePub, composite: cpub})
 			run.Count("accounts_created_through_dirk", 2)
 		}
+		if t == tables*3/4 {
+			// Further creations in wallets that already received one after start-up (earlier ones must stay listed).
+			for _, nm := range []string{"Wallet1/acct4", "Wallet1/b2"} {
+				pub, _, err := inst.Stack.Process.OnGenerate(context.Background(), rig.Client1(), nm, []byte("pass"), 1, 1)
+				if err != nil {
+					run.Inconclusive("single-participant generation failed: " + err.Error())
+					break
+				}
+				accts = append(accts, c18Acct{wallet: "Wallet1", name: strings.TrimPrefix(nm, "Wallet1/"), pub: pub})
+			}
+			if cpub, _, err := inst.Stack.Process.OnGenerate(context.Background(), rig.Client1(), "D/b", []byte("pass"), 2, 2); err == nil {
+				if v, err := dkgView(inst, "D/b"); err == nil {
+					accts = append(accts, c18Acct{wallet: "D", name: "b", pub: v.SharePub, composite: cpub})
+				}
+			}
+			run.Count("accounts_created_through_dirk", 3)
+		}
 		if t >= tables/2 {
 			phase = "after-creation"
 		}
-		g := genPermTable(r, []string{"client1", "client2"}, []string{"Wallet1", "Wallet2", "Cold", "D"}, []string{"acct1", "acct2", "val", "b", "acct3"})
+		g := genPermTable(r, []string{"client1", "client2"}, []string{"Wallet1", "Wallet2", "Cold", "D"}, []string{"acct1", "acct2", "val", "b", "acct3", "acct4", "b2"})
 		chk, err := staticchecker.New(context.Background(), staticchecker.WithPermissions(g.Dirk))
 		if err != nil {
 			run.Count("tables_rejected", 1)
